@@ -588,6 +588,15 @@ def _almgsi(phs, loaded, seed, needle=False):
 
 
 _TH = {}
+DRIVER = 'C03'      # the composed-step verb kwn.estep is part of drv_C03
+_BUILT = []
+
+
+def ensure_driver():
+    if not _BUILT:
+        ok, log, _ = vlib.lake_build(['drv_' + DRIVER])
+        _BUILT.append(ok)
+    return _BUILT[0]
 
 
 def scenario(name, rng):
@@ -630,6 +639,7 @@ def scenario(name, rng):
 
 
 def refine_scenarios(ctx, res, prop, plan, observer=None):
+    prop = DRIVER
     """plan: list of (scenario name, step cap).  Runs each real model with the recorder attached (explicit Euler), replays every
     accepted step through the composed Lean model `KWNFull.eulerStep` (driver of `prop`) and records a disagreement for every
     step whose exit state differs.  Returns the list of (name, model) for further oracle checks by the caller."""
@@ -655,7 +665,8 @@ def _one(ctx, res, prop, name, cap, observer):
         except kwnruns.StopRun:
             pass
         cfg = config(m)
-        if not getattr(ctx, 'driver_ok', True):
+        if not ensure_driver():
+            res.extra['composed_step_driver'] = 'drv_C03 does not build'
             return m
         n, bad, stats = refine(prop, rec, cfg)
     finally:
